@@ -177,6 +177,18 @@ def mergeScan (pk : List Nat) (l : List RowSet) : List Row :=
   let ls := l.map RowSet.visible
   mergeK (keyCmp (ascKeys pk)) (totalLen ls) ls
 
+/-- compactor.rs compact_table with every row-set selected (sizes far below target_rowset_size):
+nothing happens for <= 1 row-set; otherwise the row-sets, in id order, delete vectors applied, are
+merged by the sort key (or concatenated without one) into ONE new row-set with the next id; an
+empty result creates no row-set. -/
+def compactAll (pk : List Nat) (nextId : Nat) (l : List RowSet) : List RowSet × Nat :=
+  if l.length ≤ 1 then (l, nextId)
+  else
+    let ls := l.map RowSet.visible
+    let rows := if pk.isEmpty then ls.flatten else mergeK (keyCmp (ascKeys pk)) (totalLen ls) ls
+    if rows.isEmpty then ([], nextId)
+    else ([{ id := nextId, rows := rows, dead := [], blocks := [] }], nextId + 1)
+
 /-! ## Key ranges (storage/mod.rs KeyRange) and the range analysis -/
 
 inductive Bnd where
